@@ -99,7 +99,7 @@ def gen_operand(rng, allow_float=False):
     return Fraction(n, d)
 
 
-OPS = ["+", "-", "*", "/", "abs", "=", "<", "quotient", "remainder", "modulo", "gcd", "lcm", "expt",
+OPS = ["+", "-", "*", "/", "abs", "=", "<", ">", "<=", ">=", "quotient", "remainder", "modulo", "gcd", "lcm", "expt",
        "exact-integer-sqrt", "number->string", "string->number"]
 INT_OPS = {"quotient", "remainder", "modulo", "gcd", "lcm"}
 
@@ -128,6 +128,12 @@ def exact(op, xs):
         return xs[0] == xs[1]
     if op == "<":
         return xs[0] < xs[1]
+    if op == ">":
+        return xs[0] > xs[1]
+    if op == "<=":
+        return xs[0] <= xs[1]
+    if op == ">=":
+        return xs[0] >= xs[1]
     raise ValueError(op)
 
 
@@ -141,7 +147,7 @@ def float_expected(op, xs):
     the nearest double; comparisons by exact value.  Only unary/binary shapes (association order of the
     variadic forms is not fixed by the property)."""
     import math
-    if op in ("=", "<"):
+    if op in ("=", "<", ">", "<=", ">="):
         a, b = xs
         for v in (a, b):
             if isinstance(v, float) and v != v:
@@ -153,7 +159,8 @@ def float_expected(op, xs):
                 return Fraction(v)
             return v
         a, b = ex(a), ex(b)
-        return "#t" if (a == b if op == "=" else a < b) else "#f"
+        import operator
+        return "#t" if {"=": operator.eq, "<": operator.lt, ">": operator.gt, "<=": operator.le, ">=": operator.ge}[op](a, b) else "#f"
     d = [to_double(v) for v in xs]
     if op == "abs":
         return fbits(abs(d[0]))
@@ -213,7 +220,7 @@ def lossy_exact_float_comparison(case, params):
     """Known-finding class C10-F33: `=` / `<` between an exact number and a finite double where the exact
     operand is not representable as a double (the engine converts the exact operand to a double first:
     rvals.rs number_equality / PartialOrd, acknowledged by a TODO in the source)."""
-    if case.get("op") not in ("=", "<"):
+    if case.get("op") not in ("=", "<", ">", "<=", ">="):
         return False
     vals = case.get("operands_py", [])
     if len(vals) != 2:
@@ -325,7 +332,7 @@ def source(op, xs, shape):
         return "(c10-call (lambda (x0) (%s x0 %s)) %s)" % (op, " ".join(ls[1:]), ls[0]) if len(xs) > 1 else \
                "(c10-call (lambda (x0) (%s x0)) %s)" % (op, ls[0])
     if shape == "branch":           # result used as / inside a branch condition
-        if op in ("=", "<"):
+        if op in ("=", "<", ">", "<=", ">="):
             return "(c10-call (lambda (%s) (if (%s %s) #t #f)) %s)" % (" ".join(names), op, " ".join(names), " ".join(ls))
         return "(c10-call (lambda (%s) (if (void? (%s %s)) 'no (%s %s))) %s)" % (
             " ".join(names), op, " ".join(names), op, " ".join(names), " ".join(ls))
@@ -380,11 +387,11 @@ def gen_cases(ck, n):
         op = rng.choice(OPS)
         if op in ("abs", "exact-integer-sqrt", "number->string", "string->number"):
             k = 1
-        elif op in ("=", "<", "expt") or op in INT_OPS:
+        elif op in ("=", "<", ">", "<=", ">=", "expt") or op in INT_OPS:
             k = 2
         else:
             k = rng.choice([1, 2, 2, 2, 3, 4])
-        fl = op in ("+", "-", "*", "/", "abs", "=", "<") and k <= 2 and rng.random() < 0.35
+        fl = op in ("+", "-", "*", "/", "abs", "=", "<", ">", "<=", ">=") and k <= 2 and rng.random() < 0.35
         xs = [gen_operand(rng, allow_float=fl) for _ in range(k)]
         if op in INT_OPS or op == "exact-integer-sqrt":
             # integers most of the time; a rational now and then for the type error
@@ -443,6 +450,20 @@ def sweep_cases():
             for b in SWEEP_RATS + [Fraction(x) for x in (0, 1, -1, 2**31, -2**31, 2**63, -2**63)]:
                 out.append((op, [a, b]))
                 out.append((op, [b, a]))
+    # comparison lattice: every ordered pair of a set closed under floor / ceiling / truncation of its rationals,
+    # all five comparison procedures (each has its own primitive and its own PartialOrd arms in rvals.rs)
+    base = [Fraction(n, d) for n in (1, 3, 5, 7, 2**31 - 1, 2**31 + 1, 2**63 + 1, 2**64 + 1) for d in (2, 3)] + \
+           [Fraction(2**31 - 1, 2**31 - 2), Fraction(10**20 + 1, 10**20)]
+    lat = set()
+    for r_ in base:
+        for q in (r_, -r_):
+            lat.update([q, Fraction(q.numerator // q.denominator), Fraction(-((-q.numerator) // q.denominator))])
+    lat.update(Fraction(x) for x in (0, 1, -1, 2, -2, 2**31, -2**31, 2**63 - 1, 2**63, -2**63, 2**64))
+    lat = sorted(lat)
+    for op in ["=", "<", ">", "<=", ">="]:
+        for a in lat:
+            for b in lat:
+                out.append((op, [a, b]))
     fl = [0.0, -0.0, 1.0, 3.0, 49.0, 0.1, 9007199254740992.0, 1e23, 1.8446744073709552e19, 9.223372036854775807e18,
           float("inf"), float("nan"), 5e-324]
     ex = [Fraction(x) for x in (0, 1, 3, 49, 2**53 + 1, 2**63, -2**63, 10**23, 10**23 + 1, 10**30)] + \
